@@ -199,6 +199,9 @@ def _ser(x):
 
 
 def replay(data):
+    if isinstance(data, dict) and data.get('part') == 'api':
+        from . import c14
+        return c14.replay(data)
     if isinstance(data, dict) and data.get('kind') == 'authoropts':
         from . import authoropts
         return authoropts.replay(data)
@@ -299,4 +302,6 @@ def check(rep):
     # the per-author settings as a source of these bypasses (real loader + accessors)
     from . import authoropts
     authoropts.check(rep, 'C07', ['bypass_author_approval', 'bypass_peer_approval', 'bypass_leader_approval', 'bypass_build_status', 'bypass_jira_check', 'bypass_incompatible_branch', 'bypass_commit_size'])
+    from . import c14
+    c14.eval_api_part(rep, 'C07')
 
